@@ -1431,6 +1431,27 @@ theorem gorilla_history_error (rs : List GRoute) (st : Store) (req : Req) (h : g
   refine ⟨by simp [stepCopy, h], gFirstIdx_none rs req ?_⟩
   simpa [gPick] using h
 
+/-- position in the history: the handle returned for `req` after any earlier requests is the one the fresh router returns -/
+theorem history_copy_nth (find : Req → Option Pick) (st : Store) (before later : List Req) (req : Req) :
+    (runHist (stepCopy find) st (before ++ req :: later)).2[before.length]? = some (stepCopy find st req).2 := by
+  rw [history_copy_answers]
+  simp only [List.map_append, List.map_cons]
+  rw [List.getElem?_append_right (by simp)]
+  simp
+
+/-- legacy router, any insertion order of the keys: whatever was asked before and whatever is asked afterwards, the route
+    returned for `r` reads exactly what the one-shot model `legacyFindOrd` names (template, method, matched server) — a
+    private copy when a server was matched, the stored route itself (never written) on server-less documents -/
+theorem legacy_history_route (d : Doc) (ks : List Key) (before later : List Req) (r : Req) (t m : Str)
+    (ps : List (Str × Str)) (sv : SrvRef) (h : legacyFindOrd d ks r = .route t m ps sv) :
+    ∃ hd, (runHist (stepCopy (lPick d ks)) (lStore ks) (before ++ r :: later)).2[before.length]? = some (some hd) ∧
+      observe (runHist (stepCopy (lPick d ks)) (lStore ks) (before ++ r :: later)).1 hd = some ⟨t, m, sv⟩ := by
+  obtain ⟨hd, h1, h2⟩ := legacy_step_route d ks r t m ps sv
+    (fun rem k vals hm => legacy_match_declared ks r.method rem k vals hm) h
+  refine ⟨hd, ?_, ?_⟩
+  · rw [history_copy_nth, h1]
+  · rw [history_copy_store_unchanged]; exact h2
+
 open W in
 /-- witness for the class the copy protects against (seeded change C09-r3m2 and its twins): with the write made in place,
     the route returned for GET reads POST after the next call -/
@@ -1450,6 +1471,17 @@ example : ∃ rs, gorillaRoutes dTwo = some rs ∧
      h.2.map (fun o => o.bind (observe h.1)) =
        [some ⟨s "/a", get, .doc 0⟩, some ⟨s "/a", get, .doc 1⟩]) := by
   refine ⟨(gorillaRoutes dTwo).getD [], by decide +kernel, ?_⟩
+  decide +kernel
+
+open W in
+/-- non-vacuity of `legacy_history_route`: the same template through the two servers of `dTwo` on one router (two private
+    copies naming their own server), and a server-less document where the stored route itself is handed out twice -/
+example :
+    (let h := runHist (stepCopy (lPick dTwo (docKeys dTwo))) (lStore (docKeys dTwo)) [reqRel "GET" "/v1/a", reqRel "GET" "/v2/x/a"]
+     h.2.map (fun o => o.bind (observe h.1)) = [some ⟨s "/a", get, .doc 0⟩, some ⟨s "/a", get, .doc 1⟩]) ∧
+    (let h := runHist (stepCopy (lPick d40 (docKeys d40))) (lStore (docKeys d40)) [req "GET" "/a/zz", req "GET" "/a/yy"]
+     h.2.all (fun o => match o with | some (.stored _) => true | _ => false) = true ∧
+     h.2.map (fun o => o.bind (observe h.1)) = [some ⟨s "/a/{x}", get, .none⟩, some ⟨s "/a/{x}", get, .none⟩]) := by
   decide +kernel
 
 end KinModel.Props.C09
